@@ -3,7 +3,7 @@
 # the check of its own property and writes seeded/MATRIX.txt.  /repo is patched and restored for each
 # one; do not run other checks meanwhile.
 cd /verif
-OUT=seeded/MATRIX.txt
+OUT=${MATRIX_OUT:-seeded/MATRIX.txt}
 : > $OUT.tmp
 for d in seeded/C* seeded2/C*; do
   id=$(basename $d)
